@@ -20,6 +20,7 @@ package encryption
 //@ func (*LocalEncryptionHandler).decryptData serves C17
 //@   returns (pt, err)
 //@   safety
+//@   ensures [short-rejected] len(encryptedData) < 12 + 16 ==> err != nil
 
 //@ func (*LocalEncryptionHandler).wrapDEK serves C17
 //@   returns (w, err)
@@ -47,4 +48,4 @@ package encryption
 //@   returns (pt, err)
 //@   requires handler != nil && handler.keyWrapper != nil
 //@   safety
-//@   ensures [short-rejected] len(encryptedData) < 1 || len(encryptedData) < 1 + int(encryptedData[0]) + 12 + 16 ==> err != nil
+//@   ensures [short-rejected] len(encryptedData) < 1 || len(encryptedData) < 1 + old(int(encryptedData[0])) + 12 + 16 ==> err != nil
